@@ -606,7 +606,7 @@ Proof.
   assert (Hr : forall e s co', kj {| ebuf := [QUOTE]; esize := e; skipNext := s; cutOff := co' |})
     by (intros; exists []; reflexivity).
   destruct x as [|f sz].
-  - cbn [k_do]. rewrite k_reset_quote. cbn [bind]. eexists _, _. split; [reflexivity|]. apply Hr.
+  - cbn [k_do]. rewrite k_reset_quote. cbn [bind ebuf esize cutOff]. eexists _, _. split; [reflexivity|]. apply Hr.
   - cbn [frag_ok] in Hx. assert (Hf : 2 <= len f) by lia.
     assert (Hnz : Nat.eqb (length f) 0 = false) by (unfold len in Hf; lia).
     assert (Hq : forall e s co', kj {| ebuf := QUOTE :: tl; esize := e; skipNext := s; cutOff := co' |})
@@ -729,7 +729,7 @@ Proof.
   assert (Hq : forall e s co', kw {| ebuf := QUOTE :: b; esize := e; skipNext := s; cutOff := co' |})
     by (intros; exists b; split; [reflexivity|exact Hwb]).
   destruct x as [|f sz].
-  - cbn [k_do]. rewrite k_reset_quote. cbn [bind]. eexists _, _. split; [reflexivity|]. split; [apply Hr|reflexivity].
+  - cbn [k_do]. rewrite k_reset_quote. cbn [bind ebuf esize cutOff]. eexists _, _. split; [reflexivity|]. split; [apply Hr|reflexivity].
   - cbn [frag_ok frag_wf] in Hx, Hwx. assert (Hf : 2 <= len f) by lia.
     assert (Hnz : Nat.eqb (length f) 0 = false) by (unfold len in Hf; lia).
     unfold k_do. destruct (konly c).
@@ -804,45 +804,39 @@ Proof.
   vm_compute. repeat split; try reflexivity. intro H; discriminate H.
 Qed.
 
-(* what a time-out does instead: everything buffered is dropped, skipNextEvent survives *)
+(* what a time-out does instead: everything buffered is dropped - and since /repo 2e55483 skipNextEvent is cleared
+   too: whatever the state was, the state after a time-out is the initial one *)
 Theorem k8s_timeout_drops : forall c tl e s co,
   k_do c {| ebuf := QUOTE :: tl; esize := e; skipNext := s; cutOff := co |} KTimeout
-  = Ok ({| ebuf := [QUOTE]; esize := 0; skipNext := s; cutOff := false |}, (ADiscard, 0, None, false)).
+  = Ok ({| ebuf := [QUOTE]; esize := 0; skipNext := false; cutOff := false |}, (ADiscard, 0, None, false)).
 Proof. intros. cbn [k_do]. rewrite k_reset_quote. reflexivity. Qed.
 
-(* ---- after a time-out the action should be as good as new (k_spec_t) ------------------------------
-   It is not: skipNextEvent survives the time-out (k8s_timeout_drops), so when the line that timed out had exceeded
-   max_event_size, the NEXT line - which the processor may take from any other stream, the action is not busy any
-   more - is swallowed up to its end.  Witness: max_event_size 9; "0123456789" (does not fit), time-out, "ok\n"
-   (a complete line: must pass untouched, is discarded), "next\n". *)
-Definition k8s_fresh_witness : list kin :=
-  [KChunk [34; 48; 49; 50; 51; 52; 53; 54; 55; 56; 57; 34]%N 50; KTimeout;
-   KChunk [34; 111; 107; 92; 110; 34]%N 43; KChunk [34; 110; 101; 120; 116; 92; 110; 34]%N 45].
-
-Theorem k8s_timeout_fresh_refuted :
-  exists c xs, konly c = false /\ forallb frag_ok xs = true /\
-    is_ok (snd (k_run c kstate0 xs)) = true /\
-    fst (k_run c kstate0 xs) <> k_spec_t c [] xs /\
-    map (fun o : kstep => fst (fst (fst o))) (fst (k_run c kstate0 xs)) = [ACollapse; ADiscard; ADiscard; APass] /\
-    map (fun o : kstep => fst (fst (fst o))) (k_spec_t c [] xs) = [ACollapse; ADiscard; APass; APass].
+(* ---- after a time-out the action is as good as new (k_spec_t) --------------------------------------
+   A time-out ends the action's claim on the stream (it is not busy any more, the processor may take the next event
+   from any other stream), so the steps that follow must be those of a fresh action.  True of the repaired code for
+   EVERY configuration and EVERY placement of time-outs: the time-out step re-establishes the invariant of the
+   empty line (kinv c st' []), whatever the line that timed out had done (also: exceeded max_event_size). *)
+Lemma kinv_quote : forall c st hist, kinv c st hist -> exists tl, ebuf st = QUOTE :: tl.
 Proof.
-  exists {| kmax := 9; ksplit := 524288; kcut := false; kfield := false; konly := false |}, k8s_fresh_witness.
-  vm_compute. repeat split; try reflexivity. intro H; discriminate H.
+  intros c st hist [_ [_ Hst]].
+  destruct (first_unfit (kmax c) 1 (map fst hist)) as [[p u]|].
+  - destruct Hst as [_ Hc]. destruct (kcut c).
+    + destruct Hc as [_ He]. eexists. exact He.
+    + destruct Hc as [_ He]. exact He.
+  - destruct Hst as [_ [_ He]]. eexists. exact He.
 Qed.
 
-(* the strongest restriction that is true of the code for EVERY placement of time-outs: without a size limit
-   (max_event_size = 0: nothing is ever skipped) every step is k_spec_t *)
-Lemma k_run_spec_t : forall c, konly c = false -> kmax c = 0 ->
+Lemma k_run_spec_t : forall c, konly c = false ->
   forall xs hist st, kinv c st hist -> forallb frag_ok xs = true ->
   exists st', k_run c st xs = (k_spec_t c hist xs, Ok st').
 Proof.
-  intros c Ho Hm. induction xs as [|x r IH]; intros hist st Hinv Hok.
+  intros c Ho. induction xs as [|x r IH]; intros hist st Hinv Hok.
   - exists st. reflexivity.
   - cbn [forallb] in Hok. apply andb_true_iff in Hok. destruct Hok as [Hfx Hok].
     destruct x as [|f sz].
-    + (* time-out: the buffer is reset; with max_event_size = 0 nothing else is set *)
-      destruct Hinv as [_ [_ Hst]]. rewrite Hm, first_unfit_zero in Hst. destruct Hst as [Hs [Hc He]].
-      destruct st as [eb es sk co]. cbn [ebuf skipNext cutOff] in Hs, Hc, He. subst eb sk co.
+    + (* time-out: buffer, size, skipNext and cutOff are all reset: the invariant of the empty line *)
+      destruct (kinv_quote c st hist Hinv) as [tl He].
+      destruct st as [eb es sk co]. cbn [ebuf] in He. subst eb.
       cbn [k_run k_spec_t]. rewrite k8s_timeout_drops.
       destruct (IH [] _ (kinv_init c) Hok) as [st' Hr]. rewrite Hr. exists st'. reflexivity.
     + cbn [frag_ok] in Hfx. assert (Hf : 2 <= len f) by lia.
@@ -853,13 +847,49 @@ Proof.
       * destruct (IH _ st1 Hinv1 Hok) as [st' Hr]. rewrite Hr. exists st'. reflexivity.
 Qed.
 
-Theorem k8s_timeout_fresh_partial : forall c xs,
-  konly c = false -> kmax c = 0 -> forallb frag_ok xs = true ->
+Theorem k8s_timeout_fresh : forall c xs,
+  konly c = false -> forallb frag_ok xs = true ->
   exists st, k_run c kstate0 xs = (k_spec_t c [] xs, Ok st).
 Proof.
-  intros c xs Ho Hm Hok. apply (k_run_spec_t c Ho Hm xs [] kstate0); try assumption.
+  intros c xs Ho Hok. apply (k_run_spec_t c Ho xs [] kstate0); try assumption.
   apply kinv_init.
 Qed.
+
+(* k_spec_t is k_spec between time-outs: what follows a time-out is specified exactly like a sequence given to an
+   action that has just been started *)
+Theorem k_spec_t_restart : forall c hist xs ys,
+  no_timeout xs = true ->
+  k_spec_t c hist (xs ++ KTimeout :: ys) = k_spec c hist xs ++ (ADiscard, 0, None, false) :: k_spec_t c [] ys.
+Proof.
+  intros c hist xs. revert hist. induction xs as [|x r IH]; intros hist ys Hnt; [reflexivity|].
+  cbn [no_timeout forallb] in Hnt. apply andb_true_iff in Hnt. destruct Hnt as [Hx Hnt].
+  destruct x as [|f sz]; [discriminate|].
+  cbn [app k_spec_t k_spec].
+  destruct (ends_nl f || (opt_is_none (first_unfit (kmax c) 1 (map fst hist)) &&
+                          (sum_sizes hist + sz + lookahead >? ksplit c))).
+  - rewrite (IH [] ys Hnt). reflexivity.
+  - rewrite (IH _ ys Hnt). reflexivity.
+Qed.
+
+(* the behaviour BEFORE the repair is excluded.  The witness of the former finding C15-k8s-timeout-keeps-skip:
+   max_event_size 9; "0123456789" (does not fit: the rest of its line is to be skipped), time-out, "ok\n" (a complete
+   line), "next\n".  The old code kept skipNextEvent across the time-out and answered Collapse, Discard, DISCARD, Pass
+   (the line "ok" was lost); now the steps are those of k_spec_t: Collapse, Discard, Pass, Pass, both lines untouched *)
+Definition k8s_fresh_witness : list kin :=
+  [KChunk [34; 48; 49; 50; 51; 52; 53; 54; 55; 56; 57; 34]%N 50; KTimeout;
+   KChunk [34; 111; 107; 92; 110; 34]%N 43; KChunk [34; 110; 101; 120; 116; 92; 110; 34]%N 45].
+Definition k8s_fresh_cfg : kcfg := {| kmax := 9; ksplit := 524288; kcut := false; kfield := false; konly := false |}.
+
+Example k8s_timeout_old_keeps_skip_excluded :
+  konly k8s_fresh_cfg = false /\ forallb frag_ok k8s_fresh_witness = true /\
+  k_run k8s_fresh_cfg kstate0 k8s_fresh_witness = (k_spec_t k8s_fresh_cfg [] k8s_fresh_witness, Ok kstate0) /\
+  fst (k_run k8s_fresh_cfg kstate0 k8s_fresh_witness) =
+    [(ACollapse, 1, None, false); (ADiscard, 0, None, false);
+     (APass, 0, Some [34; 111; 107; 92; 110; 34]%N, false);
+     (APass, 0, Some [34; 110; 101; 120; 116; 92; 110; 34]%N, false)] /\
+  map (fun o : kstep => fst (fst (fst o))) (fst (k_run k8s_fresh_cfg kstate0 k8s_fresh_witness))
+    <> [ACollapse; ADiscard; ADiscard; APass].
+Proof. vm_compute. repeat split; try reflexivity. intro H; discriminate H. Qed.
 
 (* ---- the raw text behind the escaped fragment: insane-json's escaper is an oracle ----------------- *)
 Definition last_is_nl (raw : bytes) : bool :=
